@@ -938,6 +938,85 @@ def drain_worker(_job):
     return acc
 
 
+# ------------------------------------------------------------------ (d2) several writers draining the same channel
+def drain2_run(chooser, limits=(100, 20), chunk=150, rounds=3):
+    """two tasks of one server application write to stdout and stderr of the same channel and drain after each
+    write: whenever a drain() returns without raising, writing is possible again (the channel is not
+    write-paused at that moment), whichever waiter is woken first"""
+    loop = P.fresh(0)
+    P.install_wire_labels()
+    try:
+        returns = []
+        got = {}
+
+        async def handler(process):
+            ch = process.channel
+            ch.set_write_buffer_limits(high=limits[0], low=limits[1])
+
+            async def pump(wr, tag):
+                for i in range(rounds):
+                    wr.write(bytes([65 + i]) * chunk)
+                    await wr.drain()
+                    returns.append((tag, i, ch._send_buf_len, bool(process._write_paused)))
+            await asyncio.gather(pump(process.stdout, 'out'), pump(process.stderr, 'err'))
+            process.exit(0)
+        pair = P.Pair(loop, sopts=dict(process_factory=handler, encoding=None))
+        pair.handshake()
+
+        async def client():
+            p = await pair.c.create_process('x', encoding=None, window=64, max_pktsize=32)
+            o, e = await asyncio.gather(p.stdout.read(), p.stderr.read())
+            got['o'], got['e'] = o, e
+        t = loop.create_task(client())
+        steps = 0
+        while True:
+            loop.quiesce()
+            opts = [x for x in (pair.st, pair.ct) if x in loop.deliverable()]
+            if not opts:
+                break
+            k = chooser.choose(len(opts)) if len(opts) > 1 else 0
+            P.deliver_packet(loop, opts[k])
+            steps += 1
+            if steps > 5000:
+                raise Livelock('too many deliveries')
+        viol = []
+        for tag, i, buf, paused in returns:
+            if paused or buf > limits[0]:
+                viol.append(('drain-returned-while-paused', 'drain() #%d of the %s writer returned with %d bytes buffered '
+                             '(high-water %d), writing paused=%s' % (i + 1, tag, buf, limits[0], paused)))
+                break
+        if not t.done():
+            viol.append(('drain-hangs', 'the two writers never finished: %d drain returns' % len(returns)))
+        else:
+            want = b''.join(bytes([65 + i]) * chunk for i in range(rounds))
+            if got.get('o') != want or got.get('e') != want:
+                viol.append(('data-mismatch', 'stdout %d/%d stderr %d/%d bytes' % (len(got.get('o') or b''), len(want), len(got.get('e') or b''), len(want))))
+        if loop.unretrieved():
+            viol.append(('loop-exception', repr(loop.exc_log[0].get('exception'))[:200]))
+        return {'viol': viol, 'steps': steps, 'info': len(returns)}
+    except Livelock as exc:
+        return {'viol': [('livelock', str(exc))], 'steps': 0, 'info': 0}
+    finally:
+        P.done(loop)
+
+
+def drain2_worker(job):
+    acc = core.Acc()
+    for limits, chunk, bound in job:
+        def check(obs, ch, limits=limits, chunk=chunk):
+            acc.add(core.digest(('drain2', limits, chunk, tuple(ch.choices))), transitions=obs['steps'],
+                    sample={'two_writers': {'limits': list(limits), 'chunk': chunk, 'drain_returns': obs['info']}} if not ch.choices and chunk == 150 else None)
+            for k, d in obs['viol']:
+                acc.violation('process:%s:two-writers' % k, d, {'kind': 'drain2', 'limits': list(limits), 'chunk': chunk, 'choices': ch.choices})
+        core.explore_dfs(lambda ch, limits=limits, chunk=chunk: drain2_run(ch, limits, chunk), bound, check)
+    return acc
+
+
+def drain2_jobs(tier):
+    b = 1 if tier == 'quick' else 2
+    return [[(lim, chunk, b)] for lim in ((100, 20), (100, 0), (64, 64), (200, 50)) for chunk in (60, 150, 250)]
+
+
 def main(tier, seed):
     t0 = core.now()
     os.makedirs(SCRATCH, exist_ok=True)
@@ -956,6 +1035,7 @@ def main(tier, seed):
     acc.merge(core.pmap(pipe_worker, pipe_jobs(tier)))
     acc.merge(core.pmap(bp_worker, bp_jobs(tier)))
     acc.merge(core.pmap(drain_worker, [0]))
+    acc.merge(core.pmap(drain2_worker, drain2_jobs(tier)))
     shutil.rmtree(SCRATCH, ignore_errors=True)
     rule = ('(a) 7 byte streams + a 3-window stream + a multi-byte text stream x 15 read-call menus (read n / -1 / 0, '
             'readexactly, readline, readuntil with one, several and regex separators incl. overlapping prefixes) x '
@@ -966,7 +1046,8 @@ def main(tier, seed):
             'EOF, after exit), with and without a read before; stdout or stderr of one process made the stdin of another '
             '(at creation or by redirect_stdin) after every number 0..15 of deliveries; a pipe into a process that does not '
             'read, then a new target for the blocked producer; (d) two write+drain rounds under 5 write-buffer limit settings (incl. low-water 0 and high 0), all delivery '
-            'orders within the bound, and connection loss at every step'
+            'orders within the bound, and connection loss at every step; two writers of one channel (stdout, stderr) '
+            'draining after each write: no drain() returns while writing is paused'
             % len(orders))
     return core.finish(PROP, tier, seed, 'model_checking', acc, t0, rule,
                        {'stream_execs': n_a, 'exit_orders': len(orders), 'deviation_bound': 2 if tier == 'quick' else 3},
@@ -989,6 +1070,8 @@ def replay(rep):
         acc = full
     elif r['kind'] == 'exit':
         acc = exit_worker([tuple(r['order'])])
+    elif r['kind'] == 'drain2':
+        acc = drain2_worker([(tuple(r['limits']), r['chunk'], 0)])
     elif r['kind'] == 'bp':
         acc = bp_worker([(r['cfg'], 0)])
     elif r['kind'] == 'pipe':
